@@ -30,6 +30,7 @@ type Analysis struct {
 	MapList             map[*ssa.Global]*ssa.Global // T3: list a lookup map is the inverse of
 	OnceFn              map[*ssa.Global]*ssa.Function // T3: map -> its builder
 	Source              *ssa.Global               // F3: the randomness source variable
+	SwapStores          map[ssa.Instruction]bool  // F3b: stores accepted as explicit swaps of the source
 	evals               map[string]*Eval
 	Contexts            int
 }
@@ -49,8 +50,12 @@ func fnKey(fn *ssa.Function) string {
 		return "?"
 	}
 	s := fn.String()
+	paren := strings.HasPrefix(s, "(")
 	if i := strings.LastIndex(s, "/"); i >= 0 {
 		s = s[i+1:]
+		if paren {
+			s = "(" + s
+		}
 	}
 	return s
 }
@@ -119,7 +124,7 @@ func sameKind(a, b ssa.Instruction) bool {
 // NewAnalysis resolves the anchors and runs all rules.
 func NewAnalysis(p *Program) *Analysis {
 	a := &Analysis{P: p, R: NewResult(), evals: map[string]*Eval{}, ListLang: map[*ssa.Global]*SpecLang{}, ListOfLang: map[string]*ssa.Global{},
-		MapList: map[*ssa.Global]*ssa.Global{}, EncList: map[string]*ssa.Global{}, MapOf: map[string]*ssa.Global{}, OnceFn: map[*ssa.Global]*ssa.Function{}}
+		SwapStores: map[ssa.Instruction]bool{}, MapList: map[*ssa.Global]*ssa.Global{}, EncList: map[string]*ssa.Global{}, MapOf: map[string]*ssa.Global{}, OnceFn: map[*ssa.Global]*ssa.Function{}}
 	a.G = BuildGlobals(p)
 	a.Ef = BuildEffects(p)
 	a.NME = p.Root.Func("NewMnemonicByEntropy")
@@ -373,4 +378,41 @@ func calleeName(c ssa.CallInstruction) string {
 		return f.String()
 	}
 	return "dynamic"
+}
+
+
+// rejectCtxs builds the contexts for the sizes a gate rejects: one per cell of the
+// complement of the accepted sizes (an interval, possibly with a residue class), each with
+// the subject bounded by the cell and the blocks no value of the cell can reach marked infeasible.
+func (a *Analysis) rejectCtxs(kind string, g *GateInfo, lc LangCtx) []*Ctx {
+	if g == nil || g.Res == nil {
+		return []*Ctx{a.sizeCtx(kind, nil, g, lc)}
+	}
+	rej := g.Res.Domain.MinusFinite(g.passed())
+	if len(rej.cells) == 0 || len(rej.cells) > 24 {
+		return []*Ctx{a.sizeCtx(kind, nil, g, lc)}
+	}
+	var out []*Ctx
+	for _, c := range rej.cells {
+		cell := ZSet{[]zcell{c}}
+		ctx := &Ctx{Lang: &lc.V, SizeKind: kind, SizeRange: &[2]int64{c.lo, c.hi}}
+		ctx.Name = fmt.Sprintf("%s∈%v(rejected),lang=%s", kind, cell, lc.Name)
+		ctx.Infeasible = map[*ssa.BasicBlock]bool{}
+		for _, b := range g.Res.Fn.Blocks {
+			if g.Res.Pre[b] {
+				continue
+			}
+			r, ok := g.Res.Reach[b]
+			if !ok || intersectCell(r, c).Empty() {
+				ctx.Infeasible[b] = true
+			}
+		}
+		out = append(out, ctx)
+	}
+	return out
+}
+
+// intersectCell: z ∩ { lo..hi, ≡ r mod m }
+func intersectCell(z ZSet, c zcell) ZSet {
+	return z.clip(c.lo, c.hi).residue(c.m, c.r)
 }
